@@ -3,6 +3,7 @@ import hashlib
 import json
 import os
 import random
+import re
 import select
 import shutil
 import signal
@@ -175,6 +176,41 @@ def parse_entropy_log(path):
     return recs
 
 
+_RE_GETRANDOM = re.compile(r'^(\d+)\s+getrandom\("((?:\\x[0-9a-f]{2})*)"(\.\.\.)?, (\d+), ([^)]*)\)\s+= (-?\d+)')
+_RE_OPEN = re.compile(r'^(\d+)\s+openat\([^,]+, "((?:\\x[0-9a-f]{2})*)"[^)]*\)\s+= (\d+)')
+_RE_READ = re.compile(r'^(\d+)\s+read\((\d+), "((?:\\x[0-9a-f]{2})*)"(\.\.\.)?, (\d+)\)\s+= (-?\d+)')
+
+
+def _unx(s):
+    return bytes(int(x, 16) for x in s.split("\\x")[1:])
+
+
+def parse_strace(path):
+    """Kernel-boundary view of the random sources: getrandom(2) calls and reads from /dev/*random."""
+    out = []
+    rfds = set()
+    if not os.path.exists(path):
+        return out
+    with open(path, errors="replace") as f:
+        for line in f:
+            m = _RE_GETRANDOM.match(line)
+            if m:
+                out.append({"src": "getrandom", "tid": int(m.group(1)), "bytes": _unx(m.group(2)).hex(), "len": int(m.group(4)),
+                            "flags": m.group(5), "ret": int(m.group(6)), "truncated": bool(m.group(3))})
+                continue
+            m = _RE_OPEN.match(line)
+            if m:
+                name = _unx(m.group(2)).decode("latin1")
+                if name in ("/dev/urandom", "/dev/random"):
+                    rfds.add(m.group(3))
+                continue
+            m = _RE_READ.match(line)
+            if m and m.group(2) in rfds:
+                out.append({"src": "devrandom", "tid": int(m.group(1)), "bytes": _unx(m.group(3)).hex(), "len": int(m.group(5)),
+                            "flags": "", "ret": int(m.group(6)), "truncated": bool(m.group(4))})
+    return out
+
+
 class Cli:
     def __init__(self, path, scratch, interposer=None, wrapper=None, extra_env=None):
         self.path = path
@@ -227,7 +263,12 @@ class Cli:
             bargv = [a if isinstance(a, bytes) else a.encode("utf-8", "surrogateescape") for a in argv]
             timeout = spec.get("timeout", 120)
             t0 = time.time()
-            p = subprocess.Popen([w.encode() for w in self.wrapper] + [self.path.encode()] + bargv, stdin=subprocess.PIPE,
+            wrapper = list(self.wrapper)
+            strace_out = None
+            if spec.get("strace"):
+                strace_out = os.path.join(d, "strace.out")
+                wrapper = ["strace", "-f", "-qq", "-xx", "-s", "400", "-e", "trace=getrandom,openat,read", "-o", strace_out] + wrapper
+            p = subprocess.Popen([w.encode() for w in wrapper] + [self.path.encode()] + bargv, stdin=subprocess.PIPE,
                                  stdout=subprocess.PIPE, stderr=subprocess.PIPE, env=benv, cwd=d)
             obs = {}
             try:
@@ -258,6 +299,8 @@ class Cli:
                 obs["_raw"] = so
             if logpath:
                 obs["entropy"] = parse_entropy_log(logpath)
+            if strace_out:
+                obs["syscalls"] = parse_strace(strace_out)
             return obs
         finally:
             shutil.rmtree(d, ignore_errors=True)
